@@ -57,23 +57,22 @@ theorem step_inline {p : Params} (hp : ParamsOk p) {dflt : Nat} {st st1 : State}
         obtain ⟨rfl, rfl⟩ := h
         exact Or.inr ⟨(by intro b hb; cases hb), rfl⟩
       · rename_i k'
+        -- `registerType k'`: a non-resource object kind is left alone
         split at h
-        · rename_i hc
-          simp only [Bool.and_eq_true] at hc
-          obtain ⟨⟨hsba, _⟩, hlen⟩ := hc
-          have hm : p.metalSlotLayout = false := hp hsba
-          have hl : len = none := by cases len <;> simp_all
-          simp only [Counter.bump, Except.ok.injEq, Prod.mk.injEq] at h
+        · simp only [Except.ok.injEq, Prod.mk.injEq] at h
           obtain ⟨rfl, rfl⟩ := h
-          refine Or.inl ⟨s.getD dflt, rfl, ?_⟩
-          funext x
-          simp [slotCount, hl, hm, sliceCost_not_metal]
+          exact Or.inr ⟨(by intro b hb; cases hb), rfl⟩
         · split at h
-          · split at h
-            · simp only [Counter.bump, Except.ok.injEq, Prod.mk.injEq] at h
-              obtain ⟨rfl, rfl⟩ := h
-              exact Or.inr ⟨(by intro b hb; cases hb; exact ⟨_, rfl⟩), rfl⟩
-            · cases h
+          · rename_i hc
+            simp only [Bool.and_eq_true] at hc
+            obtain ⟨⟨hsba, _⟩, hlen⟩ := hc
+            have hm : p.metalSlotLayout = false := hp hsba
+            have hl : len = none := by cases len <;> simp_all
+            simp only [Counter.bump, Except.ok.injEq, Prod.mk.injEq] at h
+            obtain ⟨rfl, rfl⟩ := h
+            refine Or.inl ⟨s.getD dflt, rfl, ?_⟩
+            funext x
+            simp [slotCount, hl, hm, sliceCost_not_metal]
           · simp only [Counter.bump, Except.ok.injEq, Prod.mk.injEq] at h
             obtain ⟨rfl, rfl⟩ := h
             exact Or.inr ⟨(by intro b hb; cases hb; exact ⟨_, rfl⟩), rfl⟩
@@ -411,5 +410,186 @@ theorem events_msl_cases (usedAt : Nat → Bool) (hcb : (mslDescType .ConstantBu
             · exact hrl y hy
         · exact Or.inr (by simp [events, ho, herr])
       · exact Or.inr (by simp [events, herr])
+
+/-! ## without any assumption on the declared kinds: the only failures are the clean refusals -/
+
+theorem descOf_cases (tbl : ObjKind → Option DescT) (nonObj : DescT) (k : Option ObjKind) :
+    (∃ dt, descOf tbl nonObj k = .ok dt) ∨ descOf tbl nonObj k = .error "UnsupportedObjectType" := by
+  cases k with
+  | none => exact Or.inl ⟨_, rfl⟩
+  | some k =>
+    cases hk : tbl k with
+    | none => exact Or.inr (by simp [descOf, hk])
+    | some dt => exact Or.inl ⟨dt, by simp [descOf, hk]⟩
+
+/-- one call of hlsl `analyse_bindings` returns, or refuses the kind -/
+theorem hlslEvent_cases (d : MDecl) (ob : Option Binding) :
+    (∃ o, hlslEvent d ob = .ok o) ∨ hlslEvent d ob = .error "UnsupportedObjectType" := by
+  cases d with
+  | other => exact Or.inl ⟨none, rfl⟩
+  | cbuffer n s => cases ob <;> exact Or.inl ⟨_, rfl⟩
+  | global n s ss k arr bl st =>
+    rcases descOf_cases hlslDescType hlslNonObjectDescType k with ⟨dt, hdt⟩ | herr
+    · cases ob with
+      | none => exact Or.inl ⟨none, by simp [hlslEvent, hdt]⟩
+      | some b =>
+        exact Or.inl ⟨some (b.set, { name := n, loc := b.loc, descType := dt, count := countOf arr, bindless := bl,
+                                      used := true, staticSampler := ss }), by simp [hlslEvent, hdt]⟩
+    · exact Or.inr (by simp [hlslEvent, herr])
+
+theorem events_hlsl_cases : ∀ (ds : List MDecl) (bs : List (Option Binding)) (i : Nat),
+    (∃ evs, events (fun _ => hlslEvent) i ds bs = .ok evs) ∨
+    events (fun _ => hlslEvent) i ds bs = .error "UnsupportedObjectType" := by
+  intro ds
+  induction ds with
+  | nil => intro bs i; exact Or.inl ⟨[], by simp [events]⟩
+  | cons d ds ih =>
+    intro bs i
+    cases bs with
+    | nil => exact Or.inl ⟨[], by simp [events]⟩
+    | cons b bs =>
+      rcases hlslEvent_cases d b with ⟨o, ho⟩ | herr
+      · rcases ih bs (i + 1) with ⟨r, hr⟩ | herr
+        · cases o with
+          | none => exact Or.inl ⟨r, by simp [events, ho, hr]⟩
+          | some x => exact Or.inl ⟨x :: r, by simp [events, ho, hr]⟩
+        · exact Or.inr (by simp [events, ho, herr])
+      · exact Or.inr (by simp [events, herr])
+
+/-- one call of msl `analyse_bindings`, any kind: an entry in a group that has an argument buffer, nothing, or one
+    of the two refusals -/
+theorem mslEvent_cases_any (u : Bool) (d : MDecl) (ob : Option Binding) :
+    (∃ o, mslEvent u d ob = .ok o ∧ ∀ g e, o = some (g, e) → g < argumentBufferNames.length) ∨
+    mslEvent u d ob = .error "UnsupportedBindGroupIndex" ∨ mslEvent u d ob = .error "UnsupportedObjectType" := by
+  cases d with
+  | other => exact Or.inl ⟨none, rfl, by intro g e h; cases h⟩
+  | cbuffer n s =>
+    cases ob with
+    | none => exact Or.inl ⟨none, rfl, by intro g e h; cases h⟩
+    | some b =>
+      cases hk : mslDescType .ConstantBuffer with
+      | none => exact Or.inr (Or.inr (by simp [mslEvent, hk]))
+      | some dt =>
+        by_cases hg : b.set ≥ argumentBufferNames.length
+        · exact Or.inr (Or.inl (by simp [mslEvent, hk, hg]))
+        · refine Or.inl ⟨some (b.set, { name := n, loc := b.loc, descType := dt, count := some 1, bindless := false,
+                                            used := u, staticSampler := false }),
+            by simp only [mslEvent, hk, if_neg hg], ?_⟩
+          intro g e h
+          simp only [Option.some.injEq, Prod.mk.injEq] at h
+          omega
+  | global n s ss k arr bl st =>
+    rcases descOf_cases mslDescType mslNonObjectDescType k with ⟨dt, hdt⟩ | herr
+    · cases ob with
+      | none => exact Or.inl ⟨none, by simp [mslEvent, hdt], by intro g e h; cases h⟩
+      | some b =>
+        by_cases hg : b.set ≥ argumentBufferNames.length
+        · exact Or.inr (Or.inl (by simp [mslEvent, hdt, hg]))
+        · refine Or.inl ⟨some (b.set, { name := n, loc := b.loc, descType := dt, count := countOf arr, bindless := bl,
+                                            used := u, staticSampler := false }),
+            by simp only [mslEvent, hdt, if_neg hg], ?_⟩
+          intro g e h
+          simp only [Option.some.injEq, Prod.mk.injEq] at h
+          omega
+    · exact Or.inr (Or.inr (by simp [mslEvent, herr]))
+
+theorem events_msl_cases_any (usedAt : Nat → Bool) :
+    ∀ (ds : List MDecl) (bs : List (Option Binding)) (i : Nat),
+      (∃ evs, events (fun i => mslEvent (usedAt i)) i ds bs = .ok evs ∧ ∀ x ∈ evs, x.1 < argumentBufferNames.length) ∨
+      events (fun i => mslEvent (usedAt i)) i ds bs = .error "UnsupportedBindGroupIndex" ∨
+      events (fun i => mslEvent (usedAt i)) i ds bs = .error "UnsupportedObjectType" := by
+  intro ds
+  induction ds with
+  | nil => intro bs i; exact Or.inl ⟨[], by simp [events], by intro x hx; cases hx⟩
+  | cons d ds ih =>
+    intro bs i
+    cases bs with
+    | nil => exact Or.inl ⟨[], by simp [events], by intro x hx; cases hx⟩
+    | cons b bs =>
+      rcases mslEvent_cases_any (usedAt i) d b with ⟨o, ho, hlt⟩ | herr | herr
+      · rcases ih bs (i + 1) with ⟨r, hr, hrl⟩ | herr | herr
+        · cases o with
+          | none => exact Or.inl ⟨r, by simp [events, ho, hr], hrl⟩
+          | some x =>
+            refine Or.inl ⟨x :: r, by simp [events, ho, hr], ?_⟩
+            intro y hy
+            rcases List.mem_cons.1 hy with rfl | hy
+            · exact hlt y.1 y.2 rfl
+            · exact hrl y hy
+        · exact Or.inr (Or.inl (by simp [events, ho, herr]))
+        · exact Or.inr (Or.inr (by simp [events, ho, herr]))
+      · exact Or.inr (Or.inl (by simp [events, herr]))
+      · exact Or.inr (Or.inr (by simp [events, herr]))
+
+/-! ## Metal: the arguments of the entry functions (`UnboundGlobal`) -/
+
+theorem run_length {p : Params} {dflt : Nat} : ∀ {ds : List Decl} {st st' : State} {bs : List (Option Binding)},
+    run p dflt st ds = .ok (st', bs) → bs.length = ds.length := by
+  intro ds
+  induction ds with
+  | nil => intro st st' bs h; simp [run] at h; obtain ⟨_, rfl⟩ := h; rfl
+  | cons d ds ih =>
+    intro st st' bs h
+    unfold run at h
+    split at h
+    · cases h
+    · split at h
+      · cases h
+      · rename_i hrun
+        cases h
+        simp [ih hrun]
+
+theorem assign_length {p : Params} {dflt : Nat} {ds : List Decl} {res : Result} (h : assign p dflt ds = .ok res) :
+    res.bindings.length = ds.length := by
+  unfold assign at h
+  split at h
+  · cases h
+  · rename_i hrun
+    cases h
+    exact run_length hrun
+
+/-- no stage argument without a place in an argument buffer: every required extern global has an api slot -/
+theorem mslUnbound_false (usedAt : Nat → Bool) : ∀ (ds : List MDecl) (bs : List (Option Binding)) (i0 : Nat),
+    bs.length = ds.length → mslUnbound usedAt i0 ds bs = false →
+    ∀ j d, ds[j]? = some d → usedAt (i0 + j) = true → isStageArgument d = true → ∃ b, bs[j]? = some (some b) := by
+  intro ds
+  induction ds with
+  | nil => intro bs i0 _ _ j d hd; simp at hd
+  | cons x xs ih =>
+    intro bs i0 hl h j d hd hu ha
+    cases bs with
+    | nil => simp at hl
+    | cons b bs =>
+      simp only [mslUnbound, Bool.or_eq_false_iff] at h
+      cases j with
+      | zero =>
+        simp only [List.getElem?_cons_zero, Option.some.injEq] at hd
+        subst hd
+        simp only [Nat.add_zero] at hu
+        cases b with
+        | none => simp [hu, ha] at h
+        | some b => exact ⟨b, rfl⟩
+      | succ j =>
+        simp only [List.getElem?_cons_succ] at hd ⊢
+        exact ih bs (i0 + 1) (by simpa using hl) h.2 j d hd (by rw [← hu]; congr 1; omega) ha
+
+/-- and conversely: `UnboundGlobal` names a required stage argument without api slot -/
+theorem mslUnbound_true (usedAt : Nat → Bool) : ∀ (ds : List MDecl) (bs : List (Option Binding)) (i0 : Nat),
+    mslUnbound usedAt i0 ds bs = true →
+    ∃ j d, ds[j]? = some d ∧ usedAt (i0 + j) = true ∧ isStageArgument d = true ∧ bs[j]? = some none := by
+  intro ds
+  induction ds with
+  | nil => intro bs i0 h; simp [mslUnbound] at h
+  | cons x xs ih =>
+    intro bs i0 h
+    cases bs with
+    | nil => simp [mslUnbound] at h
+    | cons b bs =>
+      simp only [mslUnbound, Bool.or_eq_true, Bool.and_eq_true] at h
+      rcases h with ⟨⟨hu, ha⟩, hb⟩ | h
+      · refine ⟨0, x, rfl, by simpa using hu, ha, ?_⟩
+        cases b <;> simp_all
+      · obtain ⟨j, d, hd, hu, ha, hb⟩ := ih bs (i0 + 1) h
+        exact ⟨j + 1, d, by simpa using hd, by rw [← hu]; congr 1; omega, ha, by simpa using hb⟩
 
 end RsslVerif.Lemmas.MetaTotal
